@@ -188,6 +188,36 @@ def _min_size(ref, f, primes):
     return best[0]
 
 
+def _all_min_covers(ref, f, primes, kmin, limit=20000):
+    """Every cover of `f` by exactly `kmin` of the `primes` (as frozensets of
+    prime indices); None if more than `limit` partial branches were needed."""
+    f = list(f)
+    cov_of = [frozenset(i for i, pt in enumerate(f) if ref.inside(p, pt)) for p in primes]
+    by_pt = [[j for j, c in enumerate(cov_of) if i in c] for i in range(len(f))]
+    found = set()
+    budget = [limit * 50]
+
+    def go(uncovered, chosen):
+        budget[0] -= 1
+        if budget[0] < 0:
+            raise OverflowError
+        if not uncovered:
+            if len(chosen) == kmin:
+                found.add(frozenset(chosen))
+            return
+        if len(chosen) >= kmin:
+            return
+        i = min(uncovered, key=lambda i: len(by_pt[i]))
+        for j in by_pt[i]:
+            if j not in chosen:
+                go(uncovered - cov_of[j], chosen | {j})
+    try:
+        go(frozenset(range(len(f))), frozenset())
+    except OverflowError:
+        return None
+    return sorted(found, key=sorted)
+
+
 def _has_cyclic_core(ref, f, primes):
     """Some point of `f` remains after taking every essential prime."""
     f = list(f)
@@ -195,6 +225,15 @@ def _has_cyclic_core(ref, f, primes):
     ess = {cs[0] for cs in cov.values() if len(cs) == 1}
     rest = [pt for pt in f if not any(ref.inside(p, pt) for p in ess)]
     return bool(rest)
+
+
+def _raised_in(e):
+    import traceback
+    tb = traceback.extract_tb(e.__traceback__)
+    if not tb:
+        return '?'
+    last = tb[-1]
+    return f'{last.name}: {(last.line or "").strip()[:80]}'
 
 
 def _mk(decl, backend):
@@ -237,6 +276,28 @@ def instances(decl, mode, seed, n):
             out.append((f, hint))
         if n and len(out) > n:
             out = rnd.sample(out, n)
+    elif mode == 'hint-narrow':
+        # type hints narrower than the bit ranges: predicates extending outside
+        # the hints, care sets inside / equal to / beyond the hints, and
+        # predicates that cover the whole care set (trivial cover)
+        outside = [p for p in pts if p not in hint]
+        for i in range(n):
+            k = i % 5
+            if k == 0:
+                care, f = list(hint), [p for p in pts if rnd.random() < 0.4]
+            elif k == 1:
+                care = list(hint)
+                f = list(hint) + [p for p in outside if rnd.random() < 0.4]
+            elif k == 2:
+                care = [p for p in pts if rnd.random() < 0.7]
+                f = [p for p in pts if rnd.random() < 0.4]
+            elif k == 3:
+                care, f = list(pts), [p for p in pts if rnd.random() < 0.5]
+            else:
+                care = [p for p in hint if rnd.random() < 0.8]
+                f = care + [p for p in outside if rnd.random() < 0.5]
+            if f and care and len(f) != len(pts):
+                out.append((f, care))
     elif mode == 'cyclic-core':
         # sampled larger instances whose covering problem has a non-empty cyclic
         # core (no essential prime covers everything): the branch and bound runs
@@ -300,6 +361,12 @@ def cover_check(decl, mode, seed, n, backend, what):
             primes = ref.primes(allowed)
             if mode == 'cyclic-core' and what == 'C09':
                 kmin, allmin = _min_size(ref, fpts, primes), []
+            elif mode == 'cyclic-core':
+                kmin = _min_size(ref, fpts, primes)
+                allmin = _all_min_covers(ref, fpts, primes, kmin)
+                if allmin is None:
+                    evals -= 1
+                    continue        # reference enumeration too large: instance skipped
             else:
                 kmin, allmin = ref.min_covers(fpts, primes)
             if what == 'C10':
@@ -323,7 +390,11 @@ def cover_check(decl, mode, seed, n, backend, what):
                 try:
                     s = cov.dumps_cover(cover, f, care, c, **opts)
                 except AssertionError as e:
-                    fails.append(dict(name='dumps_cover (own postcondition) does not fail', options=str(opts), **desc))
+                    fails.append(dict(name='dumps_cover (own postcondition) does not fail', options=str(opts),
+                                      raised_in=_raised_in(e), **desc))
+                    continue
+                except Exception as e:
+                    fails.append(dict(name='dumps_cover returns a formula (raises no exception)', error=repr(e)[:200], options=str(opts), **desc))
                     continue
                 expr = s.replace('care expression', 'TRUE')
                 try:
@@ -339,6 +410,25 @@ def cover_check(decl, mode, seed, n, backend, what):
                             fails.append(dict(name='the printed formula agrees with the predicate at every assignment in the care set',
                                               point=str(asg), options=str(opts), text=s[:300], **desc))
                         break
+            # the public entry point, with the care set given and omitted (= TRUE)
+            for opts in (dict(), dict(show_dom=True), dict(show_limits=True)):
+                for care_arg, care_pts in ((care, cpts), (None, ref.points)):
+                    try:
+                        s = c.to_expr(f, care=care_arg, **opts)
+                        g = c.add_expr(s.replace('care expression', 'TRUE'))
+                    except Exception as e:
+                        if len(fails) < 5:
+                            fails.append(dict(name='Context.to_expr returns a formula that the parser accepts (raises no exception)',
+                                              error=repr(e)[:200], options=str(opts), raised_in=_raised_in(e), care='given' if care_arg is not None else 'omitted', **desc))
+                        continue
+                    cset = set(care_pts)
+                    for pt in ref.points:
+                        if pt in cset and (c.let(dict(zip(names, pt)), g) == c.true) != (pt in fpts):
+                            if len(fails) < 5:
+                                fails.append(dict(name='Context.to_expr: the printed formula agrees with the predicate at every assignment in the care set (care omitted = TRUE)',
+                                                  point=str(dict(zip(names, pt))), options=str(opts),
+                                                  care='given' if care_arg is not None else 'omitted', text=s[:300], **desc))
+                            break
             uncovered = [pt for pt in fpts if not any(ref.inside(b, pt) for b in boxes)]
             dirty = [(b, pt) for b in boxes for pt in cpts if ref.inside(b, pt) and pt not in fpts]
             if (uncovered or dirty) and len(fails) < 5:
